@@ -363,7 +363,7 @@ func (g *guarded) Run(line string) string {
 	go func() {
 		defer func() {
 			if r := recover(); r != nil {
-				done <- "panic"
+				done <- "PANIC" // spelled differently from the model's `panic`: a panic is never an agreement
 			}
 		}()
 		done <- inner.Run(line)
